@@ -43,6 +43,7 @@ Definition obs_eqb (a b : obs) : bool :=
   | Served x, Served y => inst_eqb x y
   | Failed x, Failed y => Bool.eqb x y
   | Closed, Closed => true
+  | Admin, Admin => true
   | _, _ => false
   end.
 Definition outcome_eqb (a b : outcome) : bool :=
